@@ -740,8 +740,33 @@ def rule_K_OWN(ctx, repo):
     module-level state are keyed by everything they were computed from"""
     from . import own
     nsites = 0
+    REPR_SENSITIVE = ('repr', 'str', 'hash', 'pickle', 'string', 'dumps', 'dump', 'type', 'format', 'encode', 'ascii', 'bytes')
     for modname in ('_inspect', 'keymaps', 'crypto', 'rounding'):
         m = repo.mod(modname)
+        # a function memoised by functools.lru_cache is matched by == / hash of its arguments: it must not compute anything from their representation or type
+        for fname, fi in m.functions.items():
+            if not own.is_memoised(m, fi.node):
+                continue
+            params = set(a.arg for a in fi.node.args.posonlyargs + fi.node.args.args + fi.node.args.kwonlyargs)
+            hit = None
+            for node in ast.walk(fi.node):
+                if isinstance(node, ast.Call):
+                    f = node.func
+                    nm = f.id if isinstance(f, ast.Name) else f.attr if isinstance(f, ast.Attribute) else ''
+                    if nm in REPR_SENSITIVE and any(isinstance(x, ast.Name) and x.id in params for a in list(node.args) + [k.value for k in node.keywords] for x in ast.walk(a)):
+                        hit = (node, nm)
+                        break
+                elif isinstance(node, ast.JoinedStr) or (isinstance(node, ast.BinOp) and isinstance(node.op, ast.Mod) and isinstance(node.left, ast.Constant)
+                                                        and isinstance(node.left.value, str)):
+                    if any(isinstance(x, ast.Name) and x.id in params for x in ast.walk(node)):
+                        hit = (node, 'string formatting')
+                        break
+            ctx.ob('K-MEMO', '%s::%s memoised by equality computes nothing from representation' % (m.rel, fname), hit is None)
+            if hit is not None:
+                ctx.fail('K-MEMO', '%s::%s' % (m.rel, fname), 'lru_cache matches by ==, value from %s' % hit[1],
+                         '%s is memoised with functools.lru_cache, which finds an entry by == and hash of the arguments, but computes its result from their '
+                         'representation (%s): 2 and 2.0 (and True, 0.0 and -0.0, equal tuples of them) are one memo entry with different results, so the key of a call '
+                         'depends on which equal-but-different call this process made first' % (fname, hit[1]), '%s:%d' % (m.rel, hit[0].lineno))
         shared, results = own.analyse_module(m)
         ctx.tables.setdefault('module-level containers', {})[m.rel] = sorted(shared)
         for fname, ft in sorted(results.items()):
